@@ -544,6 +544,23 @@ pub fn relate_control(r: &Rng, m: TMsg) -> TMsg {
     m
 }
 
+/// The `length` member of a control message value is not part of what is encoded (the encoder counts for itself); here
+/// it is made to look meaningful: the true size, the size plus what the writer already holds, what the writer holds,
+/// the size of the AVPs alone.
+pub fn relate_len(r: &Rng, m: TMsg, before: usize) -> TMsg {
+    let size = encode_msg(&m).map(|b| b.len()).unwrap_or(0);
+    if let TMsg::Control { tid, sid, ns, nr, avps, .. } = m {
+        let len = match r.below(5) {
+            0 => size,
+            1 | 2 => before + size,
+            3 => before,
+            _ => size.saturating_sub(12),
+        } as u16;
+        return TMsg::Control { len, tid, sid, ns, nr, avps };
+    }
+    m
+}
+
 pub fn gen_control(r: &Rng, max_avps: usize, big: bool) -> TMsg {
     if max_avps >= 3 && r.chance(1, 6) {
         return rfc_message(r);
@@ -1782,7 +1799,11 @@ fn enc_stream(r: &Rng, out: &mut Out, n: usize, prefixes: bool, oversize: bool) 
             let t = gen_avp(r, true);
             out.push(format!("enca {} {}", hex(&p), t.render()));
         } else if i % 3 == 1 {
-            out.push(format!("enc {} {}", hex(&p), gen_control(r, 8, i % 9 == 1).render()));
+            let mut m = gen_control(r, 8, i % 9 == 1);
+            if r.chance(1, 3) {
+                m = relate_len(r, m, p.len());
+            }
+            out.push(format!("enc {} {}", hex(&p), m.render()));
         } else {
             let d = if i % 2 == 0 { gen_data(r, true) } else { gen_data_free(r) };
             out.push(format!("enc {} {}", hex(&p), d.render()));
@@ -1961,6 +1982,22 @@ fn hide_stream(r: &Rng, out: &mut Out, n: usize, op: &str) {
             out.push(format!("hr Q931CauseCode(16,3,.) {} {} {} {}", hex(&secret(r)), hex(&r.bytes(4)), hex(&r.bytes(lpl)), hex(&r.bytes(16))));
         }
     }
+    // the value related to the key stream of its own hiding (a ciphertext chunk all zero, all ones, equal to the one
+    // before it, equal to the first key), at the first, second and third chunk
+    for target in 0..4usize {
+        for at in 0..3usize {
+            for _ in 0..3 {
+                if let Some((kind, value, s_, rv, lp, cipher)) = keystream_case(r, target, at) {
+                    let ap = r.bytes(16);
+                    out.push(format!("{} {}({}) {} {} {} {}", op, kind, hex(&value), hex(&s_), hex(&rv), if lp.is_empty() && op != "hr" { ".".to_string() } else { hex(&lp) }, hex(&ap)));
+                    if op == "hide" && cipher.len() >= 16 {
+                        let attr = encode_avp(&TAvp::new(kind, vec!["00".into()])).map(|rec| ((rec[4] as u16) << 8) | rec[5] as u16).unwrap_or(0);
+                        out.push(format!("reveal Hidden({},{}) {} {}", attr, hex(&cipher), hex(&s_), hex(&rv)));
+                    }
+                }
+            }
+        }
+    }
     // by rule: value lengths 1..=130 (one to nine 16-octet chunks, every remainder), length paddings that
     // leave the total just below, at and above a chunk boundary, secrets of every length 0..=70 (the MD5 block
     // boundaries of secret+chunk and of type+secret+vector lie in there) and two long ones
@@ -2005,6 +2042,85 @@ fn hide_stream(r: &Rng, out: &mut Out, n: usize, op: &str) {
         let (s, rv, lp, ap) = hide_args(r, payload_len(&t));
         out.push(format!("{} {} {} {} {} {}", op, t.render(), hex(&s), hex(&rv), hex(&lp), hex(&ap)));
     }
+}
+
+/// Hide arguments computed from each other: the value chosen so that one 16-octet chunk of the plaintext equals its
+/// own key (the ciphertext chunk is all zero), its complement (all ones), the key xor the previous ciphertext chunk
+/// (two equal ciphertext chunks in a row, hence two equal keys) or the key xor the first key.  For the first chunk the
+/// original-length field is part of it, so the random vector is searched until the first key starts with a feasible
+/// length.  Returns (kind, value, secret, rv, length padding, ciphertext).
+fn keystream_case(r: &Rng, target: usize, at: usize) -> Option<(&'static str, Vec<u8>, Vec<u8>, Vec<u8>, Vec<u8>, Vec<u8>)> {
+    let kind = BYTE_KINDS[r.below(9)];
+    let attr = {
+        let rec = encode_avp(&TAvp::new(kind, vec!["00".into()]))?;
+        ((rec[4] as u16) << 8) | rec[5] as u16
+    };
+    let s = secret(r);
+    let key0_of = |rv: &[u8]| {
+        let mut buf = attr.to_be_bytes().to_vec();
+        buf.extend_from_slice(&s);
+        buf.extend_from_slice(rv);
+        md5::compute(&buf).0
+    };
+    let tgt = |i: usize, key: &[u8; 16], key0: &[u8; 16], prev: &[u8]| -> u8 {
+        match target {
+            0 => 0,
+            1 => 0xff,
+            2 => {
+                if prev.is_empty() {
+                    0
+                } else {
+                    prev[i]
+                }
+            }
+            _ => key[i] ^ key0[i] ^ key[i],
+        }
+    };
+    let mut rv = r.bytes(4);
+    let mut vl = 46 + r.below(60);
+    if at == 0 {
+        let mut found = false;
+        for _ in 0..20000 {
+            let k = key0_of(&rv);
+            let want = ((((k[0] ^ tgt(0, &k, &k, &[])) as usize) << 8) | (k[1] ^ tgt(1, &k, &k, &[])) as usize) as usize;
+            if (6 + 46..=1000).contains(&want) {
+                vl = want - 6;
+                found = true;
+                break;
+            }
+            rv = r.bytes(4);
+        }
+        if !found {
+            return None;
+        }
+    }
+    let lp_len = if r.chance(1, 2) { (16 - (2 + vl) % 16) % 16 } else { r.below(20) };
+    let lp = r.bytes(lp_len);
+    let mut plain = ((6 + vl) as u16).to_be_bytes().to_vec();
+    plain.extend(r.bytes(vl));
+    plain.extend_from_slice(&lp);
+    let whole = plain.len() / 16 * 16;
+    let key0 = key0_of(&rv);
+    let mut key = key0;
+    let mut cipher: Vec<u8> = vec![];
+    for c in 0..whole / 16 {
+        if c == at {
+            let prev: Vec<u8> = if c > 0 { cipher[16 * (c - 1)..16 * c].to_vec() } else { vec![] };
+            for i in 0..16 {
+                let pos = 16 * c + i;
+                if pos >= 2 && pos < 2 + vl {
+                    plain[pos] = key[i] ^ tgt(i, &key, &key0, &prev);
+                }
+            }
+        }
+        let cc: Vec<u8> = (0..16).map(|i| plain[16 * c + i] ^ key[i]).collect();
+        let mut b2 = s.clone();
+        b2.extend_from_slice(&cc);
+        key = md5::compute(&b2).0;
+        cipher.extend(cc);
+    }
+    let value = plain[2..2 + vl].to_vec();
+    Some((kind, value, s, rv, lp, cipher))
 }
 
 /// RFC 2661 4.3 applied to a plaintext that is already a multiple of 16 octets (the generator's own
@@ -3129,7 +3245,178 @@ fn c19_stream(r: &Rng, out: &mut Out, n: usize) {
     }
 }
 
+/// One octet string turned into a different one that the usual cheap checksums cannot tell from it: two octets
+/// exchanged at distance 1, 2, 4, 8 or 16 (octet sums, XOR, word sums, rotate-and-add), +1 / -1 at such a distance
+/// (sums over words of that width), +1 -2 +1 at equal spacing and +1 -1 -1 +1 on four neighbours (sum and
+/// position-weighted sum, i.e. Fletcher / Adler style pairs), one bit flipped in two octets (XOR), two blocks of
+/// 4 or 8 octets exchanged.  No octet wraps round.  None when the field is too short or nothing would change.
+fn checksum_sibling(r: &Rng, b: &[u8]) -> Option<Vec<u8>> {
+    let n = b.len();
+    let mut v = b.to_vec();
+    for _ in 0..24 {
+        let d = *r.pick(&[1usize, 2, 3, 4, 8, 16]);
+        match r.below(6) {
+            0 => {
+                if n > d {
+                    let i = r.below(n - d);
+                    if v[i] != v[i + d] {
+                        v.swap(i, i + d);
+                        return Some(v);
+                    }
+                }
+            }
+            1 => {
+                if n > d {
+                    let i = r.below(n - d);
+                    let (a, c) = if r.chance(1, 2) { (i, i + d) } else { (i + d, i) };
+                    if v[a] < 255 && v[c] > 0 {
+                        v[a] += 1;
+                        v[c] -= 1;
+                        return Some(v);
+                    }
+                }
+            }
+            2 => {
+                if n > 2 * d {
+                    let i = r.below(n - 2 * d);
+                    if v[i] < 255 && v[i + d] > 1 && v[i + 2 * d] < 255 {
+                        v[i] += 1;
+                        v[i + d] -= 2;
+                        v[i + 2 * d] += 1;
+                        return Some(v);
+                    }
+                    if v[i] > 0 && v[i + d] < 254 && v[i + 2 * d] > 0 {
+                        v[i] -= 1;
+                        v[i + d] += 2;
+                        v[i + 2 * d] -= 1;
+                        return Some(v);
+                    }
+                }
+            }
+            3 => {
+                if n > 3 {
+                    let i = r.below(n - 3);
+                    if v[i] < 255 && v[i + 1] > 0 && v[i + 2] > 0 && v[i + 3] < 255 {
+                        v[i] += 1;
+                        v[i + 1] -= 1;
+                        v[i + 2] -= 1;
+                        v[i + 3] += 1;
+                        return Some(v);
+                    }
+                }
+            }
+            4 => {
+                if n > d {
+                    let i = r.below(n - d);
+                    let m = 1u8 << r.below(8);
+                    v[i] ^= m;
+                    v[i + d] ^= m;
+                    return Some(v);
+                }
+            }
+            _ => {
+                let w = if r.chance(1, 2) { 8 } else { 4 };
+                if n >= 2 * w {
+                    let i = r.below(n - 2 * w + 1);
+                    if v[i..i + w] != v[i + w..i + 2 * w] {
+                        for k in 0..w {
+                            v.swap(i + k, i + w + k);
+                        }
+                        return Some(v);
+                    }
+                }
+            }
+        }
+    }
+    None
+}
+
+/// The octet-string fields of a case line (runs of at least four octets in hexadecimal between non-alphanumerics).
+fn hex_fields(l: &str) -> Vec<(usize, usize)> {
+    let b = l.as_bytes();
+    let mut res = vec![];
+    let mut i = 0;
+    while i < b.len() {
+        if b[i].is_ascii_alphanumeric() {
+            let s = i;
+            let mut all_hex = true;
+            let mut all_digits = true;
+            while i < b.len() && b[i].is_ascii_alphanumeric() {
+                if !(b[i].is_ascii_digit() || (b'a'..=b'f').contains(&b[i])) {
+                    all_hex = false;
+                }
+                if !b[i].is_ascii_digit() {
+                    all_digits = false;
+                }
+                i += 1;
+            }
+            // (a run of decimal digits is a number, not an octet string)
+            if all_hex && !all_digits && (i - s) % 2 == 0 && i - s >= 8 {
+                res.push((s, i));
+            }
+        } else {
+            i += 1;
+        }
+    }
+    res
+}
+
+/// Calls related to their neighbours: about one line in ten is followed by a sibling of itself (one octet-string
+/// field replaced by a `checksum_sibling`) and then by itself again, all three on the worker's one thread.  Each
+/// line is a case in its own right (the model answers each); what the neighbourhood adds is a history: a memo, a
+/// retransmission shortcut or a reused buffer keyed by anything less than the whole input answers the second or the
+/// third call from the first.  With `rejected`, an encode the crate refuses (an AVP past 1023 octets inside a control
+/// message) now and then precedes a line: what a refused call leaves behind.
+fn with_neighbours(r: &Rng, lines: Vec<String>, rejected: bool) -> Vec<String> {
+    let mut out = Vec::with_capacity(lines.len() + lines.len() / 4);
+    for l in lines {
+        if rejected && r.chance(1, 40) {
+            let m = TMsg::Control { len: 0, tid: r.u16x(), sid: r.u16x(), ns: r.u16x(), nr: r.u16x(), avps: vec![TAvp::new("MessageType", vec!["Hello".into()]), TAvp::new("Challenge", vec![hex(&r.bytes(1018 + r.below(40)))])] };
+            out.push(format!("enc . {}", m.render()));
+        }
+        // a line whose answer is judged from its own arguments alone gets its sibling in place; one that states what
+        // to expect of its octets (`c15`, `sf`) gets the sibling of its octets as a plain decode
+        let op = l.split(' ').next().unwrap_or("");
+        let in_place = matches!(op, "dec" | "decd" | "avps" | "pay" | "enc" | "enca" | "rt" | "rtp" | "rta" | "fix" | "sfx" | "seqm" | "cat" | "hide" | "reveal" | "hr");
+        let sib = if l.len() < 20000 && r.chance(1, 10) {
+            if in_place {
+                let fs = hex_fields(&l);
+                if fs.is_empty() {
+                    None
+                } else {
+                    let (s, e) = *r.pick(&fs);
+                    unhex(&l[s..e]).and_then(|b| checksum_sibling(r, &b)).map(|nb| format!("{}{}{}", &l[..s], hex(&nb), &l[e..]))
+                }
+            } else if op == "c15" || op == "sf" {
+                l.split(' ').nth(if op == "c15" { 1 } else { 2 }).and_then(unhex).and_then(|b| checksum_sibling(r, &b)).map(|nb| format!("dec 111 {}", hex(&nb)))
+            } else {
+                None
+            }
+        } else {
+            None
+        };
+        match sib {
+            Some(sl) => {
+                out.push(l.clone());
+                out.push(sl);
+                out.push(l);
+            }
+            None => out.push(l),
+        }
+    }
+    out
+}
+
 pub fn generate(prop: &str, tier: &str, seed: u64) -> Vec<String> {
+    let lines = generate_base(prop, tier, seed);
+    match prop {
+        // exhaustive tables and the reader / writer operation sequences have no neighbours to relate
+        "C14" | "C16" | "C17" | "C18" => lines,
+        _ => with_neighbours(&Rng::new(seed, "neighbours"), lines, matches!(prop, "C06" | "C07" | "C09")),
+    }
+}
+
+fn generate_base(prop: &str, tier: &str, seed: u64) -> Vec<String> {
     let thorough = tier == "thorough";
     let r = Rng::new(seed, prop);
     let mut out = Out { lines: vec![] };
@@ -3228,8 +3515,16 @@ pub fn generate(prop: &str, tier: &str, seed: u64) -> Vec<String> {
             enc_stream(&r, &mut out, n(12000, 250000), true, false);
             for _ in 0..n(2000, 40000) {
                 let k = 1 + r.below(8);
+                let mut before = 0usize;
                 let ms: Vec<String> = (0..k)
-                    .map(|_| if r.chance(1, 2) { gen_control(&r, 4, false).render() } else { gen_data(&r, false).render() })
+                    .map(|_| {
+                        let mut m = if r.chance(1, 2) { gen_control(&r, 4, false) } else { gen_data(&r, false) };
+                        if r.chance(1, 3) {
+                            m = relate_len(&r, m, before);
+                        }
+                        before += encode_msg(&m).map(|b| b.len()).unwrap_or(0);
+                        m.render()
+                    })
                     .collect();
                 out.push(format!("seqm {}", ms.join("|")));
             }
@@ -3345,7 +3640,7 @@ pub fn generate(prop: &str, tier: &str, seed: u64) -> Vec<String> {
             // a print or a memo can sit on any path: a sample of every other property's stream, so that whatever
             // code any stream reaches is also run under the watch on fd 1 / fd 2, reordered, and from 16 threads
             for q in ["C01", "C03", "C04", "C05", "C06", "C07", "C08", "C10", "C11", "C12", "C13", "C14", "C15", "C16", "C17", "C18", "C20"] {
-                let ls: Vec<String> = generate(q, "quick", seed).into_iter().filter(|l| l.len() < 6000).collect();
+                let ls: Vec<String> = generate_base(q, "quick", seed).into_iter().filter(|l| l.len() < 6000).collect();
                 let want = n(500, 5000);
                 let step = (ls.len() / want).max(1);
                 out.lines.extend(ls.into_iter().step_by(step));
